@@ -23,7 +23,7 @@ Accept(f, v) == f = "connect_valid" /\ Returns(v) /\ v # "return:lock"
 \* the validator is consulted for a decodable CONNECT payload only
 MustReason(f, v) == \/ f \in DefinedTypes
                     \/ f = "connect_unknown_serializer"       \* (the refusal cannot be written in the peer's serializer; any other will do)
-                    \/ f \in {"connect_valid", "connect_unknown_object"} /\ ~Returns(v) /\ v # "raise:ConnectionClosedError" /\ v \notin NoMessage
+                    \/ f \in {"connect_valid", "connect_unknown_object"} /\ ~Returns(v) /\ v \notin NoMessage      \* (whatever the validator raises, also one of Pyro's own connection errors)
                     \/ f = "connect_unknown_object" /\ Returns(v)
 VARIABLES first, val, pipe, done
 Init == first \in Firsts /\ val \in Validators /\ pipe = <<>> /\ done = FALSE
